@@ -36,6 +36,10 @@ SHORT = {"file.a": "a", "file.b": "b", "scripts.s": "s", "apps.p": "p", "apps.p.
 DATA = ["x", "y", "_p"]
 FUNCS = ["f", "g", "h"]                                        # f may call g, h; g may call h; h calls nothing
 UNDEF = "<undef>"
+D0 = 3                         # depth budget of an entry point (ContextsCore!D0)
+UNIT = 2.0 ** -20              # one model time unit in seconds: sleeps are multiples of 1024 units (about 1 ms), every
+                               # trigger function starts with its own sleep of k units, so no two evaluators ever wake at
+                               # the same instant (sums of binary fractions are exact)
 
 
 # ---------------------------------------------------------------------------------------------
@@ -87,26 +91,35 @@ def gen_program(r, pid, mask_rel_member=False):
             locnames.add(x)
             body.append({"op": "loc", "x": x, "v": "%s.%s.l" % (SHORT[c], fname)})
         callee = FUNCS[FUNCS.index(fname) + 1:] if fname in FUNCS else FUNCS
+        ndcall = 0
         for _ in range(r.randint(1, 4)):
             k = r.random()
-            if k < 0.25:
+            if k < 0.12:
+                body.append({"op": "sleep", "t": 1024 * r.randint(1, 8)})           # suspends: other evaluators run meanwhile
+            elif k < 0.27 and ndcall == 0:
+                # depth-guarded call, free of the f > g > h order: recursion, re-entrant chains, callbacks across files
+                ndcall += 1
+                tgt = r.choice([fname if fname in FUNCS else "f", "_cb"] + FUNCS)
+                body.append({"op": "dcall", "f": tgt, "via": r.choice([""] + aliases) if tgt != "_cb" and r.random() < 0.4 else "",
+                             "cb": r.choice(["", "_cb"] + FUNCS)})
+            elif k < 0.40:
                 x = r.choice([d for d in DATA if d not in locnames] or ["x"])
                 if x in locnames:
                     continue
                 setnames.add(x)
                 body.append({"op": "set", "x": x, "v": "%s.%s.%s%d" % (SHORT[c], fname, x, r.randint(1, 9))})
-            elif k < 0.5:
+            elif k < 0.58:
                 body.append({"op": "read", "x": r.choice(DATA + FUNCS[:1]), "tag": tag(c, fname + ".r")})
-            elif k < 0.7 and callee:
+            elif k < 0.74 and callee:
                 via = r.choice([""] + aliases) if r.random() < 0.4 else ""
                 if r.random() < 0.5:
                     body.append({"op": "trycall", "f": r.choice(callee), "via": via, "tag": tag(c, fname + ".t")})
                 else:
                     body.append({"op": "call", "f": r.choice(callee), "via": via})
-            elif k < 0.8:
+            elif k < 0.82:
                 body.append({"op": "raise"})
                 break
-            elif k < 0.9 and aliases:
+            elif k < 0.91 and aliases:
                 body.append({"op": "readattr", "m": r.choice(aliases), "x": r.choice(DATA), "tag": tag(c, fname + ".ra")})
             elif aliases:
                 body.append({"op": "setattr", "m": r.choice(aliases), "x": r.choice(DATA[:2]), "v": "%s.%s.sa%d" % (SHORT[c], fname, r.randint(1, 9))})
@@ -150,7 +163,8 @@ def gen_program(r, pid, mask_rel_member=False):
             for _ in range(r.choice([0, 1, 1, 2])):
                 trig = "ev%d" % (len(events) + 1)
                 events.append(trig)
-                body.append({"op": "def", "f": "t%d" % len(events), "body": fbody(c, "t%d" % len(events), aliases, True), "trig": trig})
+                body.append({"op": "def", "f": "t%d" % len(events), "trig": trig,
+                             "body": [{"op": "sleep", "t": len(events)}] + fbody(c, "t%d" % len(events), aliases, True)})
         defined[c] = sorted(set(names))
         # top-level actions
         for _ in range(r.randint(1, 5)):
@@ -219,7 +233,7 @@ def render_stmts(stmts, ind, infunc):
         elif op == "def":
             if s["trig"]:
                 out.append(p + "@event_trigger(%r)" % s["trig"])
-            out.append(p + "def %s():" % s["f"])
+            out.append(p + "def %s(_d=%d, _cb=None):" % (s["f"], D0))
             gl = sorted({t["x"] for t in s["body"] if t["op"] == "set"})
             if gl:
                 out.append(p + "    global " + ", ".join(gl))
@@ -227,11 +241,20 @@ def render_stmts(stmts, ind, infunc):
             if not s["body"] and not gl:
                 pass
         elif op == "call":
-            out.append(p + ("%s.%s()" % (s["via"], s["f"]) if s["via"] else "%s()" % s["f"]))
+            out.append(p + ("%s.%s(_d)" % (s["via"], s["f"]) if s["via"] else "%s(_d)" % s["f"]))
+        elif op == "sleep":
+            out.append(p + "task.sleep(%r)" % (s["t"] * UNIT))
+        elif op == "dcall":
+            cb = s["cb"] or "None"
+            if s["f"] == "_cb":
+                out += [p + "if _d > 0 and _cb is not None:", p + "    _cb(_d - 1, %s)" % cb]
+            else:
+                out += [p + "if _d > 0:", p + "    %s(_d - 1, %s)" % ("%s.%s" % (s["via"], s["f"]) if s["via"] else s["f"], cb)]
         elif op == "trycall":
             target = "%s.%s" % (s["via"], s["f"]) if s["via"] else s["f"]
             out += [p + "try:", p + "    _tmp = %s" % target, p + "except (NameError, AttributeError):",
-                    p + "    vf.rec('R', %r, 'NameError')" % s["tag"], p + "else:", p + "    try:", p + "        _tmp()",
+                    p + "    vf.rec('R', %r, 'NameError')" % s["tag"], p + "else:", p + "    try:",
+                    p + ("        _tmp(_d)" if infunc else "        _tmp()"),
                     p + "        vf.rec('R', %r, 'ok')" % s["tag"], p + "    except Exception:",
                     p + "        vf.rec('R', %r, 'caught')" % s["tag"]]
         elif op == "task":
@@ -272,9 +295,11 @@ def run_program(prog):
 
     async def body(w):
         from custom_components.pyscript.global_ctx import GlobalContextMgr
-        for e in prog["events"]:
+        import asyncio
+        for e in prog["events"]:            # one burst: the triggered functions run as concurrent evaluators
             w.hass.bus.async_fire(e)
-            await w.settle()
+        await asyncio.sleep(30)             # virtual time: every sleeping evaluator finishes
+        await w.settle()
         recs = w.take()
         mods = {id(g.module): n for n, g in GlobalContextMgr.contexts.items() if g.module is not None}
         inst = {}
@@ -328,6 +353,54 @@ WITNESS = {   # minimal witness of the known finding, re-executed on every run
                                                 {"op": "import", "form": "mod", "target": "modules.k.v", "alt": "modules.k.u.v", "as": "v", "names": [], "rel": True}]},
         "modules.k.v": {"auto": False, "body": [{"op": "set", "x": "WHO", "v": "v"}, {"op": "set", "x": "x", "v": "v.x0"}]},
     }}
+
+def _imp(form, target, as_="", names=()):
+    return {"op": "import", "form": form, "target": target, "alt": target, "as": as_, "names": list(names), "rel": False}
+
+
+def _who(c):
+    return {"op": "set", "x": "WHO", "v": SHORT[c]}
+
+
+def reentrant_programs():
+    """Two activations of one function at a time, with a cross-file entry among them (re-executed on every run,
+    under both decorator subsystems): (1) two files suspended inside the same module function, (2) a re-entrant
+    callback chain a.t1 -> m.f -> a.g -> m.f, (3) a recursive module function called from another file."""
+    tail = lambda s: [{"op": "read", "x": "WHO", "tag": s + ".who"}, {"op": "read", "x": "y", "tag": s + ".y"}, {"op": "getctx", "tag": s + ".ctx"}]
+    p1 = {"order": ["file.a", "file.b"], "events": ["ev1", "ev2"], "files": {
+        "modules.m": {"auto": False, "body": [_who("modules.m"), {"op": "set", "x": "x", "v": "m.x0"},
+                      {"op": "def", "f": "f", "trig": "", "body": [{"op": "set", "x": "x", "v": "m.f.x1"}, {"op": "sleep", "t": 4096},
+                                                                  {"op": "read", "x": "x", "tag": "m.f.x"}, {"op": "read", "x": "WHO", "tag": "m.f.who"}]}]},
+        "file.a": {"auto": True, "body": [_who("file.a"), _imp("mod", "modules.m", "m"),
+                   {"op": "def", "f": "t1", "trig": "ev1", "body": [{"op": "sleep", "t": 1}, {"op": "loc", "x": "y", "v": "a.l"},
+                                                                    {"op": "trycall", "f": "f", "via": "m", "tag": "a.t1.t"}] + tail("a.t1")}]},
+        "file.b": {"auto": True, "body": [_who("file.b"), _imp("from", "modules.m", "", ["f"]),
+                   {"op": "def", "f": "t2", "trig": "ev2", "body": [{"op": "sleep", "t": 2}, {"op": "loc", "x": "y", "v": "b.l"},
+                                                                    {"op": "trycall", "f": "f", "via": "", "tag": "b.t2.t"}] + tail("b.t2")}]}}}
+    p2 = {"order": ["file.a"], "events": ["ev1"], "files": {
+        "modules.m": {"auto": False, "body": [_who("modules.m"),
+                      {"op": "def", "f": "f", "trig": "", "body": [{"op": "dcall", "f": "_cb", "via": "", "cb": "_cb"},
+                                                                  {"op": "read", "x": "WHO", "tag": "m.f.who"}]}]},
+        "file.a": {"auto": True, "body": [_who("file.a"), _imp("mod", "modules.m", "m"),
+                   {"op": "def", "f": "g", "trig": "", "body": [{"op": "dcall", "f": "f", "via": "m", "cb": "g"}, {"op": "read", "x": "WHO", "tag": "a.g.who"}]},
+                   {"op": "def", "f": "t1", "trig": "ev1", "body": [{"op": "sleep", "t": 1}, {"op": "loc", "x": "y", "v": "a.l"},
+                                                                    {"op": "dcall", "f": "f", "via": "m", "cb": "g"}] + tail("a.t1")}]}}}
+    p3 = {"order": ["file.a"], "events": ["ev1"], "files": {
+        "modules.m": {"auto": False, "body": [_who("modules.m"),
+                      {"op": "def", "f": "f", "trig": "", "body": [{"op": "dcall", "f": "f", "via": "", "cb": ""},
+                                                                  {"op": "read", "x": "WHO", "tag": "m.f.who"}]}]},
+        "file.a": {"auto": True, "body": [_who("file.a"), _imp("from", "modules.m", "", ["f"]),
+                   {"op": "def", "f": "t1", "trig": "ev1", "body": [{"op": "sleep", "t": 1}, {"op": "loc", "x": "y", "v": "a.l"},
+                                                                    {"op": "call", "f": "f", "via": ""}] + tail("a.t1")},
+                   {"op": "trycall", "f": "f", "via": "", "tag": "a.t"}, {"op": "read", "x": "WHO", "tag": "a.who"}, {"op": "getctx", "tag": "a.ctx"}]}}}
+    out = []
+    for name, p in (("suspended-in-same-function", p1), ("callback-chain", p2), ("recursion-across-files", p3)):
+        for legacy in (False, True):
+            q = copy.deepcopy(p)
+            q.update(pid="reentrant/%s/%s" % (name, "legacy" if legacy else "dm"), legacy=legacy, masked=True)
+            out.append(q)
+    return out
+
 
 WHAT = {
     "contexts": "the set of contexts that ran is not the one the documentation names for the imported files",
@@ -407,33 +480,40 @@ def model_check(ctx):
     """(M): invariants over all programs of the grammar; mutant flags must violate their invariant."""
     inv = "INVARIANT InvWrites\nINVARIANT InvPointer\nINVARIANT InvInstance\nINVARIANT InvOk\nCHECK_DEADLOCK FALSE\n"
 
-    def cfg(name, flags, opsa, rel, invs=inv):
+    def cfg(name, flags, opsa, mode, invs=inv):
         path = os.path.join(ctx.scratch, name + ".cfg")
-        open(path, "w").write("SPECIFICATION Spec\nCONSTANTS\n Flags = %s\n OpsA = %d\n Rel = %s\n%s" % (flags, opsa, rel, invs))
+        open(path, "w").write("SPECIFICATION Spec\nCONSTANTS\n Flags = %s\n OpsA = %d\n Mode = \"%s\"\n%s" % (flags, opsa, mode, invs))
         return path
+    wit = "INVARIANT WitTrack\nPOSTCONDITION WitReport\nCHECK_DEADLOCK FALSE\n"
     runs = [("statement: two files + module, every import form, %d free statements" % ctx.pick(1, 2),
-             cfg("C_main", "{}", ctx.pick(1, 2), "FALSE"), None),
-            ("statement: package with relative imports of every form", cfg("C_rel", "{}", 1, "TRUE"), None),
-            ("mutant flag callee-in-caller-ctx", cfg("C_m1", '{"callee-in-caller-ctx"}', 1, "FALSE"), ("InvPointer", "InvWrites")),
-            ("mutant flag no-restore-on-raise", cfg("C_m2", '{"no-restore-on-raise"}', 1, "FALSE"), ("InvPointer", "InvWrites")),
-            ("mutant flag star-second-instance", cfg("C_m3", '{"star-second-instance"}', 1, "FALSE"), ("InvInstance",)),
-            ("pinned-tree flag rel-sibling-name", cfg("C_m4", '{"rel-sibling-name"}', 1, "TRUE"), ("InvInstance",)),
+             cfg("C_main", "{}", ctx.pick(1, 2), "plain"), None),
+            ("statement: package with relative imports of every form", cfg("C_rel", "{}", 1, "rel"), None),
+            ("statement: concurrent / re-entrant / recursive activations of module functions, all interleavings",
+             cfg("C_conc", "{}", 1, "conc"), None),
+            ("mutant flag callee-in-caller-ctx", cfg("C_m1", '{"callee-in-caller-ctx"}', 1, "plain"), ("InvPointer", "InvWrites")),
+            ("mutant flag no-restore-on-raise", cfg("C_m2", '{"no-restore-on-raise"}', 1, "plain"), ("InvPointer", "InvWrites")),
+            ("mutant flag star-second-instance", cfg("C_m3", '{"star-second-instance"}', 1, "plain"), ("InvInstance",)),
+            ("mutant flag scope-on-function (caller context saved per function object)",
+             cfg("C_m5", '{"scope-on-function"}', 1, "conc"), ("InvPointer", "InvWrites")),
+            ("historic flag rel-sibling-name", cfg("C_m4", '{"rel-sibling-name"}', 1, "rel"), ("InvInstance",)),
             ("witnesses (cross-context call, exception across contexts, shared module state, created task)",
-             cfg("C_w", "{}", 1, "FALSE", "INVARIANT WitTrack\nPOSTCONDITION WitReport\nCHECK_DEADLOCK FALSE\n"), "witnesses")]
-    outs = parallel([(lambda c=c, e=e: tlc.run("Contexts", c, ctx.scratch, workers=1 if e == "witnesses" else max(1, min(4, CAP // 2)),
+             cfg("C_w", "{}", 1, "plain", wit), ("witnesses", "W_NoCrossCall", "W_NoCaught", "W_NoSharedSeen", "W_NoTask")),
+            ("witnesses (interleaved activations, re-entrant callback chain, recursion across files)",
+             cfg("C_w2", "{}", 1, "conc", wit), ("witnesses", "W_NoInterleave", "W_NoReentry", "W_NoRecursion"))]
+    outs = parallel([(lambda c=c, e=e: tlc.run("Contexts", c, ctx.scratch, workers=1 if (e and e[0] == "witnesses") else max(1, min(4, CAP // 2)),
                                                 env=JVM, timeout=3000))
                      for (_, c, e) in runs], max_workers=max(1, min(len(runs), CAP // 2)))
     nw = 0
     for (label, _, expect), res in zip(runs, outs):
         ctx.add_tlc(res, label)
-        if expect == "witnesses":
+        if expect and expect[0] == "witnesses":
             seen = set()
             for i in res.infos:
                 seen |= set(i.get("seen", []))
-            missing = [w for w in ("W_NoCrossCall", "W_NoCaught", "W_NoSharedSeen", "W_NoTask") if w not in seen]
+            missing = [w for w in expect[1:] if w not in seen]
             if missing or not res.ok:
                 raise MachineryFailure("witnesses not reached in Contexts.tla: %s" % (missing or res.violated))
-            nw += 4
+            nw += len(expect) - 1
         elif expect is None:
             if not res.ok:
                 ctx.report({"clause": "model:" + res.violated}, "Contexts.tla violates %s (%s)" % (res.violated, label), {"cex": res.cex})
@@ -458,7 +538,8 @@ def main(ctx):
     jobs = [{"seed": ctx.seed * 1000 + k, "count": per, "masked": k % 2 == 1, "cwd": cwd} for k in range(12)]
     skip_model = bool(os.environ.get("VERIF_SKIP_MODEL"))          # mutant runs: the model does not depend on the code
     th = [(lambda: None) if skip_model else (lambda: model_check(ctx)), lambda: run_workers("harness.drivers.c11", "work", jobs, ctx.scratch, nproc=nproc),
-          lambda: run_workers("harness.drivers.c11", "work_replay", [{"prog": copy.deepcopy(WITNESS), "cwd": cwd}], ctx.scratch, nproc=1)]
+          lambda: run_workers("harness.drivers.c11", "work_replay",
+                              [{"prog": p, "cwd": cwd} for p in [copy.deepcopy(WITNESS)] + reentrant_programs()], ctx.scratch, nproc=min(3, CAP))]
     outs = parallel(th, max_workers=3 if CAP >= 8 else 1)
     cases = [c for r in outs[1] for c in r] + [c for r in outs[2] for c in r]
     rejects = validate(ctx, cases, "main", split=ctx.pick(4, 8))
@@ -484,6 +565,10 @@ def main(ctx):
                         fs.add("trigger")
                     for t in s["body"]:
                         fs.add("in-func:" + t["op"])
+                        if t["op"] == "dcall":
+                            fs.add("dcall:" + ("callback" if t["f"] == "_cb" else "recursion" if t["f"] == s["f"] else "other"))
+                            if t["cb"]:
+                                fs.add("dcall:passes-callback")
                 if s["op"] in ("setctx", "setattr", "trycall"):
                     fs.add("top:" + s["op"])
         tags = {e["tag"]: e["v"] for e in c["obs"]["log"]}
@@ -496,7 +581,8 @@ def main(ctx):
             nontrivial.add(json.dumps(c["prog"], sort_keys=True))
     ctx.cov["feature_coverage"] = feats
     need = ["import:mod", "import:from", "import:star", "import:mod:rel", "import:from:rel", "import:star:rel", "trigger", "in-func:task",
-            "in-func:raise", "top:setctx", "exception-crossed-a-call"]
+            "in-func:raise", "top:setctx", "exception-crossed-a-call", "in-func:sleep", "dcall:callback", "dcall:recursion",
+            "dcall:passes-callback"]
     if [x for x in need if not feats.get(x)]:
         raise MachineryFailure("features never generated: %s" % [x for x in need if not feats.get(x)])
     ctx.cov["distinct_nontrivial"] = len(nontrivial)
